@@ -74,6 +74,7 @@ type RunResult struct {
 	WallNS   int64
 	MaxLevel int
 	NTables  int
+	Races    []RaceReport
 	FlusherAlive bool // the flusher task of a closed instance had not exited when Close returned
 }
 
@@ -526,6 +527,17 @@ func RunCase(t *testing.T, c *Case, trace bool) *RunResult {
 	if c.Sim.Poison {
 		opt.Poison = poisonBuf
 	}
+	raceFrom := raceLogSize()
+	raceTo := int64(-1)
+	opt.OnEnd = func(*simrt.Sim) { raceTo = raceLogSize() }
+	defer func() {
+		if raceTo < 0 {
+			raceTo = raceLogSize()
+		}
+		if raceTo > raceFrom {
+			res.Races = ParseRaceReports(raceLogRead(raceFrom, raceTo))
+		}
+	}()
 	if c.Crash != nil {
 		r.ack = newAckModel()
 		r.crash = newCrashRecorder(r)
